@@ -4,6 +4,9 @@ from .sym import (I, B, Val, Loc, scalar, sort_of, lift, fresh_name, pathstr,
                   OutOfSubset, EngineError, MATHINT)
 
 
+MAXINT = (1 << 63) - 1
+
+
 def keyname(key):
     fam, tk, path = key
     s = '%s|%s|%s' % (fam, tk, pathstr(path))
@@ -201,7 +204,7 @@ class State:
 
     def slice_facts(self, v):
         b, o, l, c = v.lv[('b',)], v.lv[('o',)], v.lv[('l',)], v.lv[('c',)]
-        self.assume(z3.And(o >= 0, l >= 0, l <= c, b >= 0, z3.Implies(b == 0, z3.And(l == 0, c == 0, o == 0))))
+        self.assume(z3.And(o >= 0, l >= 0, l <= c, b >= 0, o + c <= MAXINT, z3.Implies(b == 0, z3.And(l == 0, c == 0, o == 0))))
 
     def leaf_fact(self, t, role, known_old=False):
         kind = role[0]
@@ -212,7 +215,7 @@ class State:
         elif kind == 'ref':
             self.assume(z3.And(t >= 0, t <= (self.alloc0 if known_old else self.frontier)))
         elif kind == 'len':
-            self.assume(t >= 0)
+            self.assume(z3.And(t >= 0, t <= MAXINT))
         elif kind == 'tag':
             self.assume(t >= 0)
 
